@@ -20,8 +20,9 @@ pub fn grammar() -> Grammar<E> {
     // initialisers / assigned values that read a variable - including the one being declared
     // (`let x = x + K` must read the OUTER x)
     g.leaf(STMT, || let_("x", binop("+", var("x"), int(K))));
-    g.leaf(STMT, || let_("y", binop("+", var("x"), int(K))));
-    g.leaf(STMT, || set("x", binop("+", var("y"), int(K))));
+    // `let` is an expression: it may sit inside an argument, and still binds in the enclosing scope
+    g.leaf(STMT, || call("id", vec![let_("x", int(K))]));
+    g.leaf(STMT, || print("<let y=~>", vec![let_("y", int(K))]));
     g.prod(STMT, &[SEQ], |mut k| k.pop().unwrap()); // begin .. end (SEQ is carried as a Block)
     for c in [true, false] {
         g.prod(STMT, &[STMT], move |mut k| if_(E::Bool(c), k.pop().unwrap(), None));
@@ -77,6 +78,7 @@ pub fn frames(seq: &E) -> Vec<(&'static str, Vec<E>)> {
     let body = inst(seq, &mut st);
     let stmts = if let E::Block(v) = &body { v.clone() } else { vec![body.clone()] };
     let mut prelude: Vec<E> = (1..=st.loops).map(|i| let_(&format!("w{}", i), E::Bool(true))).collect();
+    prelude.push(fun("id", &["v"], var("v")));
     prelude.extend(st.funs.iter().cloned());
     let tail_xy = print("|~ ~", vec![var("x"), var("y")]);
     let mut out = vec![];
